@@ -227,6 +227,34 @@ def run(R, tier):
         R.check(not bad, "R16.6", "*%s?" % tname.replace("Command", "").upper(), "answers the stored value, changes nothing", "; ".join(bad[:2]), where=hb_.span)
 
 
+    # ---- R16.7 the message-available flag belongs to the interface ------------------------------------------------------------
+    # Bit 4 must be what the interface reported (Context.mav). The library may read the flag - *STB? does - but no code of
+    # scpi or scpi-contrib may assign it: a handler that clears or sets it (say, *CLS) makes later status bytes lie.
+    import json as _json
+    writers, readers = [], 0
+    for unit_name in ("scpi", "scpi_contrib"):
+        uu = P.unit(unit_name)
+        for body in uu.bodies:
+            for mir in body.all_mirs():
+                for bi in mir.live_blocks():
+                    blk = mir.blocks[bi]
+                    for st_ in blk["stmts"]:
+                        if st_["k"] != "assign":
+                            continue
+                        if any(pr.get("k") == "field" and pr.get("name") == "mav" for pr in st_["place"].get("proj", [])):
+                            writers.append("%s (%s)" % (body.npath, st_.get("line")))
+                        rv_ = st_["rv"]
+                        if rv_.get("k") in ("ref", "addr") and rv_.get("mut") and any(pr.get("k") == "field" and pr.get("name") == "mav" for pr in (rv_.get("place") or {}).get("proj", [])):
+                            writers.append("%s (&mut at %s)" % (body.npath, st_.get("line")))
+                        if '"name": "mav"' in _json.dumps(st_["rv"]):
+                            readers += 1
+                    if '"name": "mav"' in _json.dumps(blk["term"]):
+                        readers += 1
+    # constructing a Context (Context::new / Default) initialises the field through an aggregate, not a field assignment
+    R.check(not writers, "R16.7", "mav:writers", "no code of the library assigns Context.mav (%d reads)" % readers, "Context.mav is assigned by %s: the message-available bit must be the interface's report" % writers[:3])
+    R.floor("R16.7", "reads of Context.mav (recogniser witness)", readers, 1)
+
+
 def _code_of(variant):
     import json, os
     from ..report import VERIF
